@@ -367,6 +367,23 @@ def mutants_of(rng, doc):
             m["ins"].insert(k + 1, {"t": "LossyInterferometer", "m": None, "p": {"matrix": M.enc(bad)}})
             m["ins"] = _measurements_last(m["ins"])
             out.append(("param-singular-values-above-one", m, {"position": k + 1}))
+    # the same documented-parameter errors on *conditioned* instructions (after a mid-circuit
+    # measurement): the parameters are concrete, so the rejection must still come up front,
+    # whether the condition holds on every branch, on some, or on none
+    extra = []
+    for op, mdoc, meta in out:
+        if not op.startswith("param-") or "position" not in meta:
+            continue
+        k = meta["position"]
+        if k >= len(mdoc["ins"]) or mdoc["ins"][k]["t"].endswith("Measurement"):
+            continue
+        if not any(x["t"].endswith("Measurement") for x in mdoc["ins"][:k]):
+            continue
+        for cname, cond in (("always", "x[0] >= 0"), ("never", "x[0] > 99"), ("some", "x[0] == 1")):
+            m = copy.deepcopy(mdoc)
+            m["ins"][k]["when"] = cond
+            extra.append((op + "-conditioned-" + cname, m, dict(meta)))
+    out.extend(extra)
     return out
 
 
@@ -494,6 +511,10 @@ def run_shard(spec):
                                     tight_cutoff=bool(rng.random() < 0.5))
             run_valid(ctx, pq, ad, "adaptive_program")
         muts = mutants_of(rng, doc)
+        if sim in ("purefock", "gaussian", "passive") and i % 2 == 0:
+            # adaptive programs as mutation bases: conditioned / post-measurement positions
+            ad = G.adaptive_program(rng, sim=sim, shots=None if sim != "gaussian" else 4, postselect=False)
+            muts = muts + [(op, m, meta) for op, m, meta in mutants_of(rng, ad) if op.startswith("param-")]
         # quick: a random half of the operators per program; thorough: all
         if spec["tier"] == "quick":
             idx = rng.permutation(len(muts))[: max(6, len(muts) // 2)]
